@@ -19,6 +19,11 @@ class Deadlock(Exception):
     pass
 
 
+class Abandon(BaseException):
+    """Raised inside a parked simulated thread when its run is over, so that it unwinds
+    (releasing whatever it holds) instead of staying parked for the life of the process."""
+
+
 class SimThread:
     def __init__(self, sched, name, fn):
         self.sched = sched
@@ -39,6 +44,8 @@ class SimThread:
         self.ev.wait()
         self.ev.clear()
         try:
+            if self.sched.abort:
+                raise Abandon()
             self.fn(self)
         except BaseException as e:  # noqa
             self.exc = e
@@ -77,6 +84,86 @@ class SimLock:
         return False
 
 
+ACTIVE = {"sched": None}
+_LOCKS_INSTALLED = {}
+
+
+class SimAwareLock:
+    """Stands in for threading.Lock / RLock objects CREATED BY pulsarbat code (see
+    install_lock_seam): a simulated thread that finds it taken parks under scheduler
+    control instead of blocking the process; any other thread gets the real behaviour."""
+
+    def __init__(self, real):
+        self._real = real
+
+    def acquire(self, blocking=True, timeout=-1):
+        s = ACTIVE["sched"]
+        t = s.current if s is not None else None
+        if s is None or t is None or threading.current_thread() is not t.thread:
+            return self._real.acquire(blocking, timeout)
+        s.yield_point(("lock", "acquire"))
+        while not self._real.acquire(False):
+            if not blocking:
+                return False
+            s.ctx.probe("library_lock_contended")
+            t.blocked_on = self
+            s.switch_away(("lock", "wait"))
+        return True
+
+    def release(self):
+        self._real.release()
+        s = ACTIVE["sched"]
+        if s is not None:
+            for t in s.threads:
+                if t.blocked_on is self:
+                    t.blocked_on = None
+
+    def locked(self):
+        return self._real.locked()
+
+    __enter__ = acquire
+
+    def __exit__(self, *exc):
+        self.release()
+        return False
+
+
+def install_lock_seam():
+    """threading.Lock()/RLock() called from a pulsarbat source file return a
+    SimAwareLock; every other caller (threading internals, Dask, this harness) gets
+    the real thing."""
+    if _LOCKS_INSTALLED.get("done"):
+        return
+    root = os.path.join(os.path.realpath(core.REPO), "pulsarbat") + os.sep
+    real_lock, real_rlock = threading.Lock, threading.RLock
+
+    def from_library():
+        f = sys._getframe(2)
+        fn = f.f_code.co_filename
+        return (not fn.startswith("<")) and os.path.realpath(fn).startswith(root)
+
+    def lock_factory(*a, **kw):
+        if from_library():
+            return SimAwareLock(real_lock())
+        return real_lock(*a, **kw)
+
+    def rlock_factory(*a, **kw):
+        if from_library():
+            return SimAwareLock(real_rlock())
+        return real_rlock(*a, **kw)
+
+    threading.Lock, threading.RLock = lock_factory, rlock_factory
+    # Dask tokenizes under a process-wide RLock and may call back into library code
+    # (__getstate__, __dask_tokenize__) while holding it
+    try:
+        import dask.tokenize as dtok
+        if not isinstance(dtok.tokenize_lock, SimAwareLock):
+            dtok.tokenize_lock = SimAwareLock(dtok.tokenize_lock)
+    except Exception:
+        pass
+    _LOCKS_INSTALLED["done"] = True
+
+
 class Sched:
     def __init__(self, ctx, switch_eighths=1, trace_files=("readers", "utils.py"), max_steps=200000):
         self.ctx = ctx
@@ -89,9 +176,11 @@ class Sched:
         self.nsteps = 0
         self.error = None
         from . import linemon
+        install_lock_seam()
         self.mon = linemon.get_monitor("sched-" + "+".join(trace_files), 4, tuple(trace_files))
         self.switches = 0
         self.last_site = None
+        self.abort = False
 
     # -- pre-emption at line events (sys.monitoring, see linemon.py) -------------------
     def _on_line(self, code, line):
@@ -150,8 +239,9 @@ class Sched:
         if not others:
             self.error = Deadlock(f"all threads blocked at {site}")
             self.main_ev.set()
-            # park forever (daemon thread); the main thread reports the deadlock
-            threading.Event().wait()
+            # park; the main thread reports the deadlock and then abandons the run
+            t.ev.wait()
+            raise Abandon()
         i = self.tape.draw(len(others), "sched.pick_blocked")
         self.ctx.sched("switch_blocked", 1 + i)
         self._handoff(t, others[i], site)
@@ -162,8 +252,12 @@ class Sched:
         to.ev.set()
         frm.ev.wait()
         frm.ev.clear()
+        if self.abort:
+            raise Abandon()
 
     def _thread_finished(self, t):
+        if self.abort:
+            return
         nxt = self._runnable()
         if nxt:
             i = self.tape.draw(len(nxt), "sched.pick_after_exit") if len(nxt) > 1 else 0
@@ -175,11 +269,12 @@ class Sched:
             self.current = None
             self.main_ev.set()
 
-    def run(self, wall_timeout=120):
+    def run(self, wall_timeout=int(os.environ.get("VERIF_SCHED_TIMEOUT", "120"))):
         """Run all spawned threads to completion under the tape's schedule."""
         if not self.threads:
             return
         self.mon.callback = self._on_line
+        ACTIVE["sched"] = self
         for t in self.threads:
             t.thread.start()
         first = self.tape.draw(len(self.threads), "sched.first") if len(self.threads) > 1 else 0
@@ -189,7 +284,16 @@ class Sched:
             if not self.main_ev.wait(wall_timeout):
                 raise RuntimeError(f"simulated threads hung (wall timeout); last site {self.last_site}")
         finally:
+            # nobody stays parked: wake every unfinished thread so that it unwinds
+            self.abort = True
+            self.current = None
+            for t in self.threads:
+                if not t.done:
+                    t.ev.set()
+            for t in self.threads:
+                t.thread.join(5)
             self.mon.callback = None
+            ACTIVE["sched"] = None
         if self.error is not None:
             raise self.error
         for t in self.threads:
